@@ -24,6 +24,7 @@ use reactive_graph::{
         Action, ActionAbortHandle, ArcAction, ArcMultiAction, ArcSubmission, MultiAction, Submission,
     },
     computed::ArcMemo,
+    effect::ImmediateEffect,
     owner::{provide_context, Owner},
     traits::{Get, GetUntracked},
 };
@@ -32,6 +33,18 @@ use vsexp::{Lst, Num, Sexp};
 
 type Slot = Arc<Mutex<Option<oneshot::Receiver<i64>>>>;
 
+/// dispatch handles and result senders, in dispatch order (also the dispatches a synchronous
+/// observer makes from inside a notification)
+#[derive(Default)]
+struct Rt {
+    handles: Vec<Option<ActionAbortHandle>>,
+    senders: Vec<Option<oneshot::Sender<i64>>>,
+}
+thread_local! {
+    static RT: std::cell::RefCell<Rt> = Default::default();
+}
+
+#[derive(Clone)]
 enum Act {
     Arc(ArcAction<i64, i64>),
     Arena(Action<i64, i64>),
@@ -56,6 +69,45 @@ impl Tracked {
 }
 
 impl Act {
+    /// read one field tracked (inside the observer): 0 version, 1 value, 2 input
+    fn track(&self, field: i64) {
+        macro_rules! tr {
+            ($a:expr) => {
+                match field {
+                    0 => {
+                        let _ = $a.version().get();
+                    }
+                    1 => {
+                        let _ = $a.value().get();
+                    }
+                    _ => {
+                        let _ = $a.input().get();
+                    }
+                }
+            };
+        }
+        match self {
+            Act::Arc(a) => tr!(a),
+            Act::Arena(a) => tr!(a),
+            Act::SrvArc(a) => tr!(a),
+            Act::Srv(a) => tr!(a),
+            Act::SrvPlain(a) => tr!(a),
+        }
+    }
+    /// a dispatch whose handle and sender are recorded under the next dispatch number
+    fn dispatch_recorded(&self, slot: &Slot, server: bool, local: bool, i: i64) {
+        let (tx, rx) = oneshot::channel();
+        let mut rx = Some(rx);
+        if !server {
+            *slot.lock().unwrap() = rx.take();
+        }
+        let h = self.dispatch(local, i, &mut rx);
+        RT.with(|r| {
+            let mut r = r.borrow_mut();
+            r.handles.push(Some(h));
+            r.senders.push(Some(tx));
+        });
+    }
     fn dispatch(&self, local: bool, i: i64, rx: &mut Option<oneshot::Receiver<i64>>) -> ActionAbortHandle {
         match (self, local) {
             (Act::Arc(a), false) => a.dispatch(i),
@@ -165,13 +217,15 @@ fn opt(v: Option<i64>) -> Sexp {
 pub fn reset() {
     exec::reset();
     srvfn::reset();
+    let old = RT.with(|r| std::mem::take(&mut *r.borrow_mut()));
+    drop(old);
 }
 
 pub fn run(c: &Sexp) -> Sexp {
     reset();
     let owner = Owner::new();
     let out = owner.with(|| match c.at(0).num() {
-        0 => single(c.at(1).num(), c.at(2), c.at(3)),
+        0 => single(c.at(1).num(), c.at(2), c.at(3), c.at(4)),
         1 => multi(c.at(1), c.at(2).num()),
         _ => Lst(vec![]),
     });
@@ -194,7 +248,15 @@ fn url_error(path: &str, r: i64) -> (String, String) {
     (get("__path"), get("__err"))
 }
 
-fn single(variant: i64, events: &Sexp, restore: &Sexp) -> Sexp {
+fn abort_recorded(k: usize) {
+    let h = RT.with(|r| r.borrow_mut().handles.get_mut(k).and_then(|h| h.take()));
+    if let Some(h) = h {
+        h.abort();
+    }
+}
+
+fn single(variant: i64, events: &Sexp, restore: &Sexp, observer: &Sexp) -> Sexp {
+    RT.with(|r| *r.borrow_mut() = Rt::default());
     let rp = restore.list().first().map(|x| x.num());
     let rv = restore.at(1).num();
     let v0 = if rp == Some(1) { Some(rv) } else { None };
@@ -262,37 +324,52 @@ fn single(variant: i64, events: &Sexp, restore: &Sexp) -> Sexp {
     };
     let tracked = act.tracked(local);
     let base = exec::spawned();
-    let mut handles: Vec<Option<ActionAbortHandle>> = vec![];
-    let mut senders: Vec<Option<oneshot::Sender<i64>>> = vec![];
+    // observer `(field action arg budget)`: an ImmediateEffect that reads one field of the action
+    // and, each time that field is published (up to `budget` times), dispatches `arg` to /
+    // aborts dispatch `arg` of the SAME action from inside the notification
+    let armed = Arc::new(std::sync::atomic::AtomicBool::new(false));
+    let _observer = if observer.list().len() == 4 {
+        let (field, oact, arg) = (observer.at(0).num(), observer.at(1).num(), observer.at(2).num());
+        let budget = Arc::new(std::sync::atomic::AtomicI64::new(observer.at(3).num()));
+        let (act2, slot2, armed2) = (act.clone(), slot.clone(), armed.clone());
+        use std::sync::atomic::Ordering::SeqCst;
+        let e = ImmediateEffect::new(move || {
+            act2.track(field);
+            if armed2.load(SeqCst) && budget.load(SeqCst) > 0 {
+                budget.fetch_sub(1, SeqCst);
+                if oact == 0 {
+                    act2.dispatch_recorded(&slot2, server, local, arg);
+                } else {
+                    abort_recorded(arg as usize);
+                }
+            }
+        });
+        armed.store(true, SeqCst);
+        Some(e)
+    } else {
+        None
+    };
+    let n_handles = || RT.with(|r| r.borrow().handles.len());
     let mut out = vec![];
     for ev in events.list() {
         let k = ev.at(1).num();
         let ku = k as usize;
         match ev.at(0).num() {
             0 => {
-                let (tx, rx) = oneshot::channel();
-                let mut rx = Some(rx);
-                if !server {
-                    *slot.lock().unwrap() = rx.take();
-                }
-                let h = act.dispatch(local, k, &mut rx);
-                handles.push(Some(h));
-                senders.push(Some(tx));
-                assert_eq!(exec::spawned() - base, handles.len(), "one task per dispatch");
+                act.dispatch_recorded(&slot, server, local, k);
+                assert_eq!(exec::spawned() - base, n_handles(), "one task per dispatch");
             }
-            1 => {
-                if let Some(h) = handles.get_mut(ku).and_then(|h| h.take()) {
-                    h.abort();
-                }
-            }
+            1 => abort_recorded(ku),
             2 => {
-                if let Some(tx) = senders.get_mut(ku).and_then(|h| h.take()) {
+                let tx = RT.with(|r| r.borrow_mut().senders.get_mut(ku).and_then(|h| h.take()));
+                if let Some(tx) = tx {
                     let _ = tx.send(ev.at(2).num());
                 }
             }
             3 => {
-                if k >= 0 && ku < handles.len() {
+                if k >= 0 && ku < n_handles() {
                     exec::poll(base + ku);
+                    assert_eq!(exec::spawned() - base, n_handles(), "one task per dispatch");
                 }
             }
             4 => act.clear(),
@@ -300,9 +377,8 @@ fn single(variant: i64, events: &Sexp, restore: &Sexp) -> Sexp {
                 exec::run_all(&ev.at(1).nums(), 10_000);
             }
             6 => {
-                if let Some(h) = handles.get_mut(ku) {
-                    drop(h.take());
-                }
+                let h = RT.with(|r| r.borrow_mut().handles.get_mut(ku).and_then(|h| h.take()));
+                drop(h);
             }
             8 => {
                 // a dispatch while resource loads are suppressed (what leptos does while it
@@ -334,7 +410,8 @@ fn single(variant: i64, events: &Sexp, restore: &Sexp) -> Sexp {
     }
     // keep the senders alive until the tasks are gone
     exec::reset();
-    drop(senders);
+    drop(_observer);
+    RT.with(|r| *r.borrow_mut() = Rt::default());
     Lst(out)
 }
 
